@@ -1085,6 +1085,11 @@ impl<P: Protocol>
         self.housekeep()
     }
 
+    /// What `run()` does before its event loop (fills the own-address list).
+    pub fn verif_initialize(&mut self) {
+        self.initialize()
+    }
+
     /// What `run()` sends at shutdown.
     pub fn verif_send_close(&mut self) {
         let mut buffer = MsgBuffer::new(SPACE_BEFORE);
